@@ -93,7 +93,16 @@ def run_impl(hist, config, deep=True):
     if res is None:
         return out
     keys = hist_keys(hist)
+    # identification WITHOUT the time stamp (unique (position, radius) only): lets the identity statements of C07 be
+    # judged on results whose time stamps are wrong (which is C06's business and reported there)
+    keys_nt, amb = {}, set()
+    for (t_, p_, r_), fj in keys.items():
+        if (p_, r_) in keys_nt:
+            amb.add((p_, r_))
+        keys_nt[(p_, r_)] = fj
     tracks = []
+    tracks_ident = []
+    ident_ok = True
     ok = True
     for tr in res:
         if len(tr.times) != len(tr.droplets):
@@ -105,8 +114,13 @@ def run_impl(hist, config, deep=True):
             ok = False
             continue
         ent = []
+        ent_nt = []
         for t, d in zip(tr.times, tr.droplets):
             k = _key(t, d.position, d.radius)
+            if k[1:] in keys_nt and k[1:] not in amb:
+                ent_nt.append([float(t), *keys_nt[k[1:]]])
+            else:
+                ident_ok = False
             if k not in keys:
                 out["problems"].append(f"droplet in a track is not a droplet of its frame (altered data or wrong time stamp): "
                                        f"time={t!r} position={d.position.tolist()} radius={float(d.radius)!r}")
@@ -121,7 +135,9 @@ def run_impl(hist, config, deep=True):
                 out["problems"].append(f"track shares droplet object ({f},{j}) with the input (no copy)")
             ent.append([float(t), f, j])
         tracks.append(ent)
+        tracks_ident.append(ent_nt)
     out["tracks"] = tracks if ok else None
+    out["tracks_ident"] = tracks_ident if ident_ok and all(tracks_ident) else None
     out["tracks_partial"] = tracks
     return out
 
@@ -272,10 +288,12 @@ def oracle_C07(hist, config, res, ov, D):
     """C07 is quantified over time courses whose droplets do not overlap within a frame (checked by the
     caller for the statements that need it)."""
     fails = []
-    if res["raised"] or res["tracks"] is None:
+    if res["raised"]:
         return fails  # C06's business
     method, max_dist = config
-    tracks = res["tracks"]
+    tracks = res["tracks"] if res["tracks"] is not None else res.get("tracks_ident")
+    if tracks is None:
+        return fails  # droplets cannot be identified at all: C06's business
     sizes = [len(fr) for fr in hist["frames"]]
     links = links_of(tracks)
     starts = {(tr[0][1], tr[0][2]) for tr in tracks}
